@@ -58,7 +58,7 @@ static int runProc(const std::vector<std::string> &argv, const std::vector<std::
 }
 
 int main(int argc, char **argv) {
-  ctx = parse_args("C11", argc, argv, 240, 1700);
+  ctx = parse_args("C11", argc, argv, 600, 1700);
   Report rep; rep.ctx = ctx; bool th = ctx.thorough();
   // ---- sources
   std::vector<Src> srcs;
@@ -76,7 +76,8 @@ int main(int argc, char **argv) {
     srcs.push_back({"unusual", s, false});
   // string literals of every length 0..40 (packing into words, buffers on stack vs heap)
   for (int n = 0; n <= 40; n++) { std::string lit(n, 'a'); for (int k = 0; k < n; k++) lit[k] = 'a' + k % 26; srcs.push_back({"string-length", "proc p(array s, array t) is 0(s[0] + t[0])\nproc main() is p(\"" + lit + "\", \"" + lit.substr(0, n / 2) + "\")\n", false}); }
-  for (const char *s : {"BR foo\n", "LDAC 0\nb\nLDAC b\n", "a\na\nBR a\n", "PROC p\nFUNC p\nBR p\n", "LDAC 99999999999\n", "DATA -1\nDATA 4294967295\n", "BR La\nLa\nLDAC 0\nDATA 5\n", "LDAP x\nLDAC 0\nLDAC 0\nx\nDATA 1\nLDAM x\n", "", "# c\n", "OPR LDAC\n"})
+  for (const char *s : {"BR foo\n", "LDAC 0\nb\nLDAC b\n", "a\na\nBR a\n", "PROC p\nFUNC p\nBR p\n", "LDAC 99999999999\n", "DATA -1\nDATA 4294967295\n", "BR La\nLa\nLDAC 0\nDATA 5\n", "LDAP x\nLDAC 0\nLDAC 0\nx\nDATA 1\nLDAM x\n", "", "# c\n", "OPR LDAC\n",
+                        "PROC a\nPROC b\nLDAC 1\n", "FUNC f\nPROC p\nFUNC g\nBR f\nPROC q\nPROC r\nLDAC 0\n", "x\ny\nz\nBR x\nBR y\nBR z\n", "PROC putc\nPROC putchar\nLDAC 1\nOPR SVC\nFUNC a\nFUNC b\nFUNC c\nOPR BRB\n", "PROC e1\nPROC e2\n"})
     srcs.push_back({"unusual-asm", s, true});
   // every single-token edit (delete, duplicate, swap, replace by every token / identifier of the program / hostile literal) of the semantic seed program
   // and of a few corpus programs: this is where accepted-but-unusual sources come from (assignment to a val, a call through the wrong kind of name, ...)
@@ -93,10 +94,12 @@ int main(int argc, char **argv) {
   }
   size_t big = 0; for (auto &s : srcs) if (s.text.size() > 20000) big++;
   // ---- configurations
-  struct Cfg { unsigned char fill; size_t shift; unsigned char stack; int pred; };
+  struct Cfg { unsigned char fill; size_t shift; unsigned char stack; int pred; bool desc = false; };
   std::vector<Cfg> cfgs;
   std::vector<size_t> shifts = {0, 16, 4096};
   for (unsigned char f : {0x00, 0xFF, 0xA5, 0x5A}) for (size_t sh : shifts) for (unsigned char st : {0x00, 0xFF}) cfgs.push_back({f, sh, st, -1});
+  // pointer order: the same with every block allocated below the previous one (descending arena)
+  { Cfg c{0xA5, 0, 0xFF, -1}; c.desc = true; cfgs.push_back(c); Cfg d{0x00, 16, 0x00, -1}; d.desc = true; cfgs.push_back(d); }
   // predecessors: 6 fixed sources compiled first in the same process
   std::vector<int> preds; for (size_t i = 0; i < srcs.size() && preds.size() < 6; i += srcs.size() / 6 + 1) preds.push_back((int)i);
   for (int p : preds) { cfgs.push_back({0xA5, 16, 0xFF, p}); if (th) cfgs.push_back({0x00, 0, 0x00, p}); }
@@ -116,7 +119,7 @@ int main(int argc, char **argv) {
     }
     int rc = run_isolated([&] {
       std::string out = ctx.scratch + "/replay.out"; Result base; bool have = false; int bad = 0;
-      for (auto &cf : cfgs) { if (cf.pred >= 0) continue; robust::g_fill = cf.fill; robust::g_shift = cf.shift; robust::g_fill_on = true; robust::dirtyStack(cf.stack); Result r = produce(s, out); robust::g_fill_on = false; if (!have) { base = r; have = true; } else if (!(r == base)) bad++; }
+      for (auto &cf : cfgs) { if (cf.pred >= 0) continue; robust::g_fill = cf.fill; robust::g_shift = cf.shift; robust::g_fill_on = true; robust::dirtyStack(cf.stack); if (cf.desc) robust::desc_begin(); Result r = produce(s, out); robust::desc_end(); robust::g_fill_on = false; if (!have) { base = r; have = true; } else if (!(r == base)) bad++; }
       printf("replay: %d of %zu configurations differ from the first\n", bad, cfgs.size()); if (bad) _exit(7); }, 300);
     if (rc) { printf("VIOLATION property=C11 replay=%s\n", ctx.replayPath.c_str()); return 1; }
     return 0;
@@ -133,17 +136,17 @@ int main(int argc, char **argv) {
       for (auto &cf : cfgs) {
         cfgIndex++;
         if (huge && (cf.shift == 4096 || (cf.pred >= 0 && !th))) continue;
-        if (s.name == "edit" && !th && !(cfgIndex == 1 || cf.fill == 0xA5 || (cf.fill == 0xFF && cf.shift == 16 && cf.stack == 0xFF))) continue;
+        if (s.name == "edit" && !th && !(cfgIndex == 1 || cf.desc || cf.fill == 0xA5 || (cf.fill == 0xFF && cf.shift == 16 && cf.stack == 0xFF))) continue;
         g_errno = 0; robust::g_fill = cf.fill; robust::g_shift = cf.shift; robust::g_fill_on = true; robust::dirtyStack(cf.stack);
         if (cf.pred >= 0 && (size_t)cf.pred != i) (void)produce(srcs[cf.pred], out);
-        Result r = produce(s, out);
+        Result r; if (cf.desc) robust::desc_begin(); r = produce(s, out); robust::desc_end();
         robust::g_fill_on = false;
         st.add("pairs");
         if (!have) { base = r; have = true; continue; }
         if (!(r == base)) {
           std::string what = r.status != base.status ? "verdict" : r.bin != base.bin ? "binary" : r.listing != base.listing ? "listing" : "diagnostic";
-          st.violation(std::string(s.isAsm ? "hexasm:" : "xcmp:") + what + (cf.pred >= 0 ? ":after-predecessor" : ":fill-or-shift"), i,
-                       Obj().kv("tool", s.isAsm ? "hexasm" : "xcmp").kv("source_name", s.name).kv("source", s.text.substr(0, 4000)).kv("fill", (int)cf.fill).kv("shift", (uint64_t)cf.shift).kv("stack_fill", (int)cf.stack).kv("predecessor", cf.pred)
+          st.violation(std::string(s.isAsm ? "hexasm:" : "xcmp:") + what + (cf.pred >= 0 ? ":after-predecessor" : cf.desc ? ":pointer-order" : ":fill-or-shift"), i,
+                       Obj().kv("tool", s.isAsm ? "hexasm" : "xcmp").kv("source_name", s.name).kv("source", s.text.substr(0, 4000)).kv("fill", (int)cf.fill).kv("shift", (uint64_t)cf.shift).kv("stack_fill", (int)cf.stack).kv("predecessor", cf.pred).kb("descending_allocation", cf.desc)
                            .kv("what", what + " differs from the first configuration (status " + std::to_string(base.status) + "/" + std::to_string(r.status) + ")").str());
           break;
         }
@@ -218,7 +221,7 @@ int main(int argc, char **argv) {
     std::vector<int> perturb; if (th) for (int i = 0; i < 256; i++) perturb.push_back(i); else perturb = {0, 85, 170, 255};
     std::vector<size_t> pads = {0, 4096, 65536};
     std::vector<size_t> which; for (size_t i = 0; i < srcs.size(); i++) if (srcs[i].name == "unusual" || srcs[i].name == "unusual-asm" || srcs[i].name == "fib.x" || srcs[i].name == "hello.S" || srcs[i].name == "bubblesort.x") which.push_back(i);
-    phase(ctx, "process level: " + std::to_string(which.size()) + " sources x " + std::to_string(perturb.size() * pads.size() * 2) + " configurations");
+    phase(ctx, "process level: " + std::to_string(which.size()) + " sources x " + std::to_string(perturb.size() * (pads.size() + 1) * 2) + " configurations");
     auto body2 = [&](uint64_t b, uint64_t e, const std::set<uint64_t> &skip, Stats &st, volatile uint64_t *cur) {
       std::string dir = ctx.scratch + "/p" + std::to_string(b); mkdir(dir.c_str(), 0755);
       for (uint64_t k = b; k < e; k++) {
@@ -228,8 +231,9 @@ int main(int argc, char **argv) {
         spit(dir + "/src.txt", s.text);
         std::string tool = std::string(cli) + (s.isAsm ? "/hexasm" : "/xcmp");
         std::string first; bool have = false;
-        for (int pt : perturb) for (size_t pd : pads) for (int aslr = 0; aslr < 2; aslr++) {
+        for (int pt : perturb) for (size_t pd : pads) for (int aslr = 0; aslr < 2; aslr++) for (int mm = 0; mm < (pd == 0 ? 2 : 1); mm++) {
           std::vector<std::string> env = {"MALLOC_PERTURB_=" + std::to_string(pt), "PAD=" + std::string(pd, 'x'), "PATH=/usr/bin:/bin"};
+          if (mm) env.push_back("MALLOC_MMAP_THRESHOLD_=0");   // every block from mmap: descending addresses, page-aligned
           std::string sig;
           for (int mode = 0; mode < 2; mode++) {
             std::vector<std::string> av; if (!aslr) { av = {"/usr/bin/setarch", "x86_64", "-R", tool}; } else av = {tool};
@@ -241,7 +245,7 @@ int main(int argc, char **argv) {
             sig += std::to_string(rc) + "|" + hexs(slurp(dir + "/out.bin")) + "|" + out + "|" + err + "#";
           }
           if (!have) { first = sig; have = true; }
-          else if (sig != first) { st.violation(std::string(s.isAsm ? "hexasm" : "xcmp") + ":process-output-depends-on-host-state", k, Obj().kv("tool", s.isAsm ? "hexasm" : "xcmp").kv("source", s.text.substr(0, 2000)).kv("perturb", pt).kv("env_pad", (uint64_t)pd).kb("aslr", aslr).kv("what", "status, binary, listing or diagnostic differs from the first configuration").str()); goto next; }
+          else if (sig != first) { st.violation(std::string(s.isAsm ? "hexasm" : "xcmp") + ":process-output-depends-on-host-state", k, Obj().kv("tool", s.isAsm ? "hexasm" : "xcmp").kv("source", s.text.substr(0, 2000)).kv("perturb", pt).kv("env_pad", (uint64_t)pd).kb("aslr", aslr).kb("mmap_threshold_0", mm).kv("what", "status, binary, listing or diagnostic differs from the first configuration").str()); goto next; }
         }
       next:;
       }
@@ -255,9 +259,9 @@ int main(int argc, char **argv) {
   rep.evaluations = c["pairs"] + c["process_runs"]; rep.states = c["pairs"]; rep.transitions = rep.evaluations; rep.validated = rep.evaluations;
   rep.nontrivial = c["pairs"];
   rep.rule = "sources: shipped X and assembly files, a stride sample of the C01 and C05 corpora, and semantically unusual sources (accepted and rejected); configurations in-process: heap fill {00,FF,A5,5A} x "
-             "allocation shift {0,16,4096 bytes: changes every pointer value and their order} x stack fill {00,FF}, plus each of 6 other sources compiled first in the same process; histories: every poison source "
+             "allocation shift {0,16,4096 bytes: changes every pointer value and block spacing} x stack fill {00,FF}, two configurations in which every block is allocated below the previous one (reverses the address order of any two objects), plus each of 6 other sources compiled first in the same process; histories: every poison source "
              "(overflowing literals, one diagnostic per stage, long strings, many constants/labels; X and assembly) singly and in ordered pairs before each subject, compared with the subject alone; process level: "
-             "MALLOC_PERTURB_ {0,85,170,255 | thorough 0..255} x environment padding {0,4K,64K} x ASLR {off via setarch -R, on} for binary and listing modes; every (source,configuration) pair must yield "
+             "MALLOC_PERTURB_ {0,85,170,255 | thorough 0..255} x environment padding {0,4K,64K} x ASLR {off via setarch -R, on} (+ MALLOC_MMAP_THRESHOLD_=0) for binary and listing modes; every (source,configuration) pair must yield "
              "the byte-identical binary, listing and diagnostic as the first configuration; pairs are distinct by construction";
   rep.bounds.kv("sources", (uint64_t)srcs.size()).kv("in_process_configurations", (uint64_t)cfgs.size());
   rep.assumptions = {"ASLR placements cannot be enumerated: covered by allocation shifting (in-process) and on/off at process level"};
